@@ -195,7 +195,7 @@ func (r *report) finish() int {
 }
 
 func sanitizeFile(s string) string {
-	r := strings.NewReplacer("/", "_", "[", "_", "]", "_", " ", "_", ":", "_", "*", "_", "#", "_", "$", "_")
+	r := strings.NewReplacer("/", "_", "[", "_", "]", "_", " ", "_", ":", "_", "*", "_", "#", "_", "$", "_", "|", "_", "!", "_", "(", "_", ")", "_", "'", "_")
 	return r.Replace(s)
 }
 
